@@ -24,7 +24,7 @@ B = random edit of A, C = random edit of B / C = A / C = edit of A / independent
 findings); exhaustive: all pairs of duplicate-free user-ordered sequences over <= 4 keys (reverse), all triples over 9 tiny
 per-node state spaces under the 4 option settings (merge).
 Known findings: F15 (reverse of user-ordered changes), F18 (merge without LYD_DIFF_DEFAULTS / with LYD_DIFF_MERGE_DEFAULTS),
-F163 (NULL passed to strcmp in lyd_diff_is_redundant), F164 (stale `data` after apply), F154 (leak in apply; found by component
+F173 (NULL passed to strcmp in lyd_diff_is_redundant), F174 (stale `data` after apply), F154 (leak in apply; found by component
 life as well and repaired at HEAD) — recognised by their specific signatures; everything else that breaks a law is a violation.
 """
 import itertools, json, os
@@ -266,15 +266,15 @@ def classify(component, what, case):
             if blocks and all("lyd_diff_apply_r" in b and "lyd_dup" in b and "lyd_diff_merge" not in b and "lyd_diff_reverse" not in b
                               for b in blocks):
                 return "F154"
-        # F163: lyd_diff_is_redundant() reads the orig-default metadata of a 'none' leaf / leaf-list node without checking that
+        # F173: lyd_diff_is_redundant() reads the orig-default metadata of a 'none' leaf / leaf-list node without checking that
         # it exists (assert only); reached when a diff of a moved state list instance (C06: whole subtree under 'replace',
         # children without operation) is merged
         if "lyd_diff_is_redundant" in st and "null pointer" in st and "lyd_diff_merge_r" in st:
-            return "F163"
+            return "F173"
         return None
     if law == "applyptr" and "top-level-first-instance-moved-behind-anchor" in feat:
-        # F164: lyd_diff_insert sets *first_node to the anchor when the first sibling is moved behind it
-        return "F164"
+        # F174: lyd_diff_insert sets *first_node to the anchor when the first sibling is moved behind it
+        return "F174"
     if law == "reverse":
         # F15(d): orig-value = value = '' (first place / predecessor with the empty value): lyd_change_meta reports "no change"
         if verdict == "Reverse:Enot" and "uo-equal-anchors" in feat:
@@ -628,9 +628,9 @@ def eval_merge(cx, c, o, mo, r, rid=None):
         return
     if uo:
         # user-ordered (incl. key-less / state) lists are outside the merge law (lyd_diff_is_redundant documents the merge of
-        # moves as lossy); how often the result differs in more than the order is reported in the distribution (finding F162)
+        # moves as lossy); how often the result differs in more than the order is reported in the distribution (finding F172)
         if verdict == "differs" and "differs-only-in-userord-order" not in feat:
-            cx.dist["law:merge:fails:userord: content differs, not only the order (F162, outside the law)"] += 1
+            cx.dist["law:merge:fails:userord: content differs, not only the order (F172, outside the law)"] += 1
         return
     feat = feat + list(c.f1.get(o, [])) + list(c.f2.get(o, []))
     through = c06_through(s, A, C, M, verdict, o, list(c.f1.get(o, [])) + list(c.f2.get(o, [])))
